@@ -24,8 +24,9 @@ VERIF = os.path.dirname(os.path.dirname(os.path.abspath(__file__)))
 REPO = os.environ.get("SKCHANGE_REPO", "/repo")
 COQ = os.path.join(VERIF, "coq")
 BUILD = os.path.join(VERIF, "build")
-REPLAYS = os.path.join(VERIF, "replays")
-EVIDENCE = os.path.join(VERIF, "evidence")
+REPLAYS = os.path.join(VERIF, "replays") if os.environ.get("SKCHANGE_REPO", "/repo") == "/repo" else os.path.join(VERIF, "build", "replays_scratch")
+# runs against a scratch tree (SKCHANGE_REPO set: seeded changes) must not overwrite the evidence of the real tree
+EVIDENCE = os.environ.get("VERIF_EVIDENCE_DIR") or (os.path.join(VERIF, "evidence") if REPO == "/repo" else os.path.join(VERIF, "build", "evidence_scratch"))
 CORPUS = os.path.join(VERIF, "corpus")
 NCPU = os.cpu_count() or 4
 
